@@ -8,7 +8,7 @@ Local Open Scope N_scope.
 Inductive mop :=
 | OInt | OStr | OStrMax (cap : Z) | OSkip | OBytes (n : Z) | ORemain
 | OAd (cap : Z) (parse_fail : option N)     (* GetClassAdWithMaxSize; cap 0 = GetClassAd *)
-| OAdRaw | OAdSkip
+| OAdRaw | OAdRawBody (n : Z) | OAdSkip
 | OIdStr (max_name : Z)
 | OXKey | OSSLRecv.
 
@@ -65,6 +65,10 @@ Definition run_op (enc : bool) (r : reader) (o : mop) : reader * mres (option by
   | ORemain => valize (get_remaining r)
   | OAd cap pf => unitize (get_classad (parse_oracle pf) enc cap r)
   | OAdRaw => unitize (get_classad_raw enc r)
+  | OAdRawBody n =>
+      (* GetClassAdRawBody: the body of get_classad_raw with the count supplied by the caller *)
+      unitize (bind (raw_loop enc (S (S (S (N.to_nat (avail r))))) n r) (fun r1 _ =>
+               bind (type_line enc r1) (fun r2 _ => type_line enc r2)))
   | OAdSkip => unitize (skip_classad_raw enc r)
   | OIdStr mx => valize (get_id_string enc mx r)
   | OXKey => unitize (exchange_key_client r)
